@@ -86,6 +86,29 @@ def r1(ctx):
     ctx.check(len(trunc) == 1, "C09.R1", fi, "a datagram shorter than its length field is refused")
     loops = [n for n in walk_own(fi.node) if isinstance(n, ast.For)]
     ctx.check(len(loops) == 1 and norm(loops[0].iter) in ("range(pkt.hdr.count)", "range(%s.count)" % hp), "C09.R1", fi, "decode loops hdr.count times", witness=[norm(l.iter) for l in loops])
+    # the reader refuses no length the writer produces: the packing loop fills the message area up to Packet.MAX_CONTENT_SIZE, so a
+    # cap on the decoded length field (in the header parse or in the datagram decode) must lie at or above that
+    P = ctx.repo.cls("connection:Packet")
+    top = ctx.folder.class_attr(P, "MAX_CONTENT_SIZE")
+    tight, n_caps = [], 0
+    for f_ in (ctx.fn("connection:PacketHeader.from_bytes"), fi):
+        lens = {"%s.length" % x for x in ("hdr", "pkt.hdr", hp, "self")} | {"length"}
+        for g in walk_own(f_.node):
+            if isinstance(g, ast.If) and any(isinstance(s_, ast.Raise) for s_ in g.body):
+                for cmp in [x for x in ast.walk(g.test) if isinstance(x, ast.Compare) and len(x.ops) == 1]:
+                    l, r, op = cmp.left, cmp.comparators[0], type(cmp.ops[0])
+                    for (a_, b_, o_) in ((l, r, op), (r, l, {ast.Lt: ast.Gt, ast.Gt: ast.Lt, ast.LtE: ast.GtE, ast.GtE: ast.LtE}.get(op, op))):
+                        if norm(a_) in lens and o_ in (ast.Gt, ast.GtE):
+                            try:
+                                c_ = ctx.folder.fold(b_, f_.module, cls=f_.cls)
+                            except Exception:
+                                c_ = None
+                            if isinstance(c_, int) and not isinstance(c_, bool):
+                                n_caps += 1
+                                if c_ < top or (o_ is ast.GtE and c_ <= top):
+                                    tight.append({"function": f_.qual, "test": norm(cmp), "bound": c_, "largest_written_length": top})
+    ctx.check(not tight and isinstance(top, int), "C09.R1", fi, "no cap on the decoded length field below what the writer packs (Packet.MAX_CONTENT_SIZE)",
+              "a datagram the sender legitimately fills to the last bytes must decode (%d length caps inspected)" % n_caps, witness=tight)
 
 
 def _framing(ctx):
